@@ -131,6 +131,16 @@ type Node struct{ Next *Node }
 
 type E0b struct{}
 
+// StrList is a slice type that itself implements fmt.Stringer, and so does each of its elements.
+type StrList []MyI64
+
+func (l StrList) String() string { return fmt.Sprint(len(l)) }
+
+// ErrList is a slice type that is an error; its elements are errors too.
+type ErrList []*S1
+
+func (l ErrList) Error() string { return "errlist" }
+
 // Svc carries the method corpus (see corpus.go).
 type Svc struct{ N int }
 
